@@ -26,6 +26,28 @@ CHECKS = {
             'Trusts the span checker (pv/spans.py, plain integer arithmetic on public attributes) '
             'and that % / \\ are the comment / escape characters.',
             'DESIGN.md 5 C01'),
+    'C05': ('fault_enumeration',
+            'bounded-exhaustive token soups + single-fault injection at every token boundary of '
+            'Hypothesis-generated documents; oracle = exception type/location and mandatory '
+            'rejection',
+            'Every soup <= 3 (quick) / <= 4 (thorough) tokens must give a tree or a located '
+            'LatexWalkerParseError (pos in range, line/col = counting model); every single '
+            'unmatched delimiter inserted at every token boundary outside comments of generated '
+            'verbatim-free documents must be rejected. Enumerates all faults of the stated family '
+            'on the generated documents; documents themselves are sampled.',
+            'Parity argument for rejection; token boundaries from the independent mini tokenizer; '
+            'documents are verbatim-free so every boundary is outside verbatim text.',
+            'DESIGN.md 5 C05'),
+    'C06': ('exploration',
+            'bounded-exhaustive + random token soups, grammar documents and prefix+stray-token '
+            'composites; differential against the strict parse; read-count termination monitor',
+            'Tolerant parsing of every soup <= 3/4 tokens, random 40-token soups, documents and '
+            'composites terminates without exception, returns a node list, equals the strict tree '
+            'whenever strict succeeds, and keeps the nodes of a well-formed prefix before a stray '
+            'closing token (also when the error is nested in a later construct).',
+            'Termination = bound on token-reader calls (200*(n+8)); prefix preservation is checked '
+            'for prefixes closed by a group.',
+            'DESIGN.md 5 C06'),
     'C20': ('exploration',
             'bounded-exhaustive enumeration against a counting reference model',
             'Every string <= 7 (quick) / <= 9 (thorough) over {a, NL, CR, space}, every position, '
